@@ -36,9 +36,13 @@ type c21Filter struct {
 	healthy []string
 	raw     bool
 	lastArg []string
+	during  func() // called from inside Run: the health-check round of a Refresh is in flight
 }
 
 func (f *c21Filter) Run(addrs stringset.Set) stringset.Set {
+	if f.during != nil {
+		f.during()
+	}
 	f.lastArg = addrs.ToSlice()
 	sort.Strings(f.lastArg)
 	out := stringset.New()
@@ -139,6 +143,51 @@ func c21Exec(t *verifh.T, c verifh.Case) {
 			g.r.Refresh()
 			lastTbl = ""
 			t.Op(op[1:], c21NodesTok(g.r), "filterarg="+c21AddrsTok(g.filter.lastArg))
+		case op[1] == "refreshobs" && len(op) == 5:
+			// a Refresh during whose health-check round other goroutines' Locations calls are simulated from inside
+			// filter.Run (the filter is the scheduling point): every answer must be the answer of ONE published
+			// (membership, healthy) pair - the one before or the one after this Refresh - and never empty
+			g := rings[op[2]]
+			if g == nil || g.r.hash == nil {
+				return
+			}
+			var ds []core.Digest
+			for b := 0; b < 256; b++ {
+				d, _ := c21Digest(fmt.Sprintf("%02x%02x", b, (b*37+11)%256))
+				ds = append(ds, d)
+			}
+			before := make([]string, len(ds))
+			for i, d := range ds {
+				before[i] = c21AddrsTok(g.r.Locations(d))
+			}
+			duringRes := make([]string, len(ds))
+			g.list.cur = c21Addrs(op[3])
+			g.filter.healthy = c21Addrs(op[4])
+			g.filter.during = func() {
+				for i, d := range ds {
+					if p := verifh.Protect(func() { duringRes[i] = c21AddrsTok(g.r.Locations(d)) }); p != "" {
+						duringRes[i] = "panic:" + verifh.Str(p)
+					}
+				}
+			}
+			g.r.Refresh()
+			g.filter.during = nil
+			lastTbl = ""
+			t.Op(op[1:], c21NodesTok(g.r), "filterarg="+c21AddrsTok(g.filter.lastArg), "during="+strconv.Itoa(len(ds)))
+			if len(g.list.cur) == 0 {
+				return
+			}
+			for i, d := range ds {
+				after := c21AddrsTok(g.r.Locations(d))
+				switch {
+				case duringRes[i] == "-":
+					t.PropFail("locations-empty-during-refresh", "shard="+d.ShardID(), "before="+before[i], "after="+after)
+					return
+				case duringRes[i] != before[i] && duringRes[i] != after:
+					t.PropFail("locations-inconsistent-during-refresh", "shard="+d.ShardID(), "during="+duringRes[i], "before="+before[i], "after="+after)
+					return
+				}
+			}
 		case op[1] == "conc" && len(op) == 5:
 			g := rings[op[2]]
 			if g == nil {
@@ -448,6 +497,48 @@ func TestVerif_C21(t *testing.T) {
 		sweep(ms7, randSpecs(ms7, 3), 64)
 	}
 
+	// (a'') Locations calls that overlap the health-check round of a Refresh: membership changes that replace every
+	// healthy host, add hosts, remove hosts, or only change health
+	for i := 0; i < verifh.Scale(40, 1500); i++ {
+		pool := c21Hosts(r, 4+r.Intn(6))
+		m1 := c21Subset(pool, 1+r.Intn(1<<uint(len(pool))-1))
+		h1 := c21Subset(m1, 1+r.Intn(1<<uint(len(m1))-1))
+		var c verifh.Case
+		c.Ops = append(c.Ops, c21Op("new", "r0", strconv.Itoa(1+r.Intn(3)), c21AddrsTok(m1), c21AddrsTok(h1)))
+		for j := 0; j < 1+r.Intn(3); j++ {
+			var m2, h2 []string
+			switch (i + j) % 4 {
+			case 0: // every healthy host is replaced by a new one
+				for _, x := range pool {
+					keep := true
+					for _, y := range h1 {
+						keep = keep && x != y
+					}
+					if keep {
+						m2 = append(m2, x)
+					}
+				}
+				m2 = append(m2, fmt.Sprintf("fresh%d-%d:80", i, j))
+				h2 = m2[len(m2)-1:]
+			case 1: // hosts are added
+				m2 = append(append([]string{}, m1...), fmt.Sprintf("fresh%d-%d:80", i, j))
+				h2 = append([]string{}, h1...)
+			case 2: // hosts are removed
+				m2 = m1[:1+len(m1)/2]
+				h2 = m2[:1]
+			default: // only health changes
+				m2 = m1
+				h2 = c21Subset(m1, r.Intn(1<<uint(len(m1))))
+			}
+			c.Ops = append(c.Ops, c21Op("refreshobs", "r0", c21AddrsTok(c21Shuffle(r, m2)), c21AddrsTok(h2)), c21Op("loc", "r0", "00ff"))
+			m1, h1 = m2, h2
+			if len(h1) == 0 {
+				h1 = m1[:1]
+			}
+		}
+		c21Exec(tr, c)
+		tr.Count("refresh_overlap_cases", 1)
+	}
 	// (b) bounded-exhaustive Refresh histories over three hosts: every (members, healthy ⊆ members) pair
 	hosts := []string{"a:1", "b:1", "c:1"}
 	type mh struct{ m, h []string }
